@@ -66,10 +66,15 @@ SHAPES_HASH = {
     "scan_bucket: eq? chain walk (hash.c)": "for(p=ls;sexp_pairp(p);p=sexp_cdr(p)){if(sexp_caar(p)==obj){res=p;break;}}",
     "regrow (hash.c)":
         "oldsize=sexp_vector_length(oldbuckets),newsize=oldsize*2;",
-    "regrow loops (hash.c)":
+    # two accepted loops (round 4): consing (Table.regrow) or moving the existing spine pairs (Chain.regrow_relink, proved
+    # to compute Table.regrow: Properties_C15.regrow_relink_refines_regrow); which one is recorded in REGROW_RELINKS
+    "regrow loops (hash.c)": (
         "for(i=0;i<oldsize;i++){for(ls=oldvec[i];sexp_pairp(ls);ls=sexp_cdr(ls)){"
         "j=sexp_unbox_fixnum(sexp_get_bucket(ctx,newbuckets,hash_fn,sexp_caar(ls)));sexp_push(ctx,newvec[j],sexp_car(ls));}}"
         "sexp_hash_table_buckets(ht)=newbuckets;",
+        "for(i=0;i<oldsize;i++){for(ls=oldvec[i];sexp_pairp(ls);ls=next){next=sexp_cdr(ls);"
+        "j=sexp_unbox_fixnum(sexp_get_bucket(ctx,newbuckets,hash_fn,sexp_caar(ls)));sexp_cdr(ls)=newvec[j];newvec[j]=ls;}}"
+        "sexp_hash_table_buckets(ht)=newbuckets;"),
     "cell: lookup (hash.c)":
         "i=sexp_get_bucket(ctx,buckets,hash_fn,obj);res=sexp_scan_bucket(ctx,sexp_vector_ref(buckets,i),obj,eq_fn);"
         "if(sexp_truep(res)){res=sexp_car(res);}elseif(sexp_truep(createp)){",
@@ -130,6 +135,12 @@ SHAPES_SCM = {
         "(if(null?ls)(lp1(-i1)acc)(lp2(cdrls)(kons(car(carls))(cdr(carls))acc))))))))",
     "hash-table-copy = merge! into a fresh table (interface.scm)":
         "(let((res(make-hash-table(hash-table-equivalence-functiontable)(hash-table-hash-functiontable))))(hash-table-merge!restable)res)",
+    # tupdate of Table.v (round 4): the pinned form (cell created first: F-C15-5) or the repaired one
+    "hash-table-update!/default (interface.scm)": (
+        '(lambda(tablekeyfuncdefault)(assert-hash-table"hash-table-update!/default"table)(let((cell(hash-table-celltablekeynot-found)))'
+        '(set-cdr!cell(func(if(eq?not-found(cdrcell))default(cdrcell))))))',
+        '(define(hash-table-update!/defaulttablekeyfuncdefault)(assert-hash-table"hash-table-update!/default"table)'
+        '(let((cell(hash-table-celltablekey#f)))(ifcell(set-cdr!cell(func(cdrcell)))(hash-table-set!tablekey(funcdefault)))))'),
     "hash-table-merge! (interface.scm)":
         "(hash-table-walkb(lambda(kv)(if(not(hash-table-exists?ak))(hash-table-set!akv))))",
 }
@@ -149,15 +160,23 @@ def _squeeze_scm(src):
 def probe(d):
     """returns (vals: dict name->int, shape_errors: list of str); raises RuntimeError if nothing can be produced"""
     errs = []
+    relinks = 0
     hsrc = open(os.path.join(d, "lib/srfi/69/hash.c")).read()
     for fn, shapes, sq in (("lib/srfi/69/hash.c", SHAPES_HASH, _squeeze_c), ("sexp.c", SHAPES_SEXP, _squeeze_c),
                            ("bignum.c", SHAPES_BIGNUM, _squeeze_c),
                            ("lib/srfi/69/interface.scm", SHAPES_SCM, _squeeze_scm), ("lib/chibi/equiv.scm", SHAPES_EQUIV, _squeeze_scm)):
         text = sq(open(os.path.join(d, fn)).read())
         for what, shape in shapes.items():
-            if shape not in text:
+            alts = shape if isinstance(shape, tuple) else (shape,)
+            hit = [i for i, sh in enumerate(alts) if sh in text]
+            if not hit:
                 errs.append("source shape changed, the model no longer mirrors it: %s" % what)
+            elif what == "regrow loops (hash.c)":
+                relinks = hit[0]
     vals = {}
+    vals["REGROW_RELINKS"] = relinks
+    # F-C15-5: hash-table-update!(/default) created the cell BEFORE running the procedure / thunk (a raise left a phantom entry)
+    vals["UPDATE_FIXED"] = 0 if "(hash-table-celltablekeynot-found)" in _squeeze_scm(open(os.path.join(d, "lib/srfi/69/interface.scm")).read()) else 1
     for name in ("FNV_PRIME", "FNV_OFFSET_BASIS", "HASH_DEPTH"):
         m = re.search(r"^#define\s+%s\s+(\d+)(?:uL|UL|u|L)?\s*$" % name, hsrc, re.M)
         if not m:
@@ -190,7 +209,7 @@ def probe(d):
 def coq_text(vals):
     names = ["TAG_PAIR", "TAG_SYMBOL", "TAG_BYTES", "TAG_STRING", "TAG_VECTOR", "TAG_FLONUM", "TAG_BIGNUM",
              "FNV_PRIME", "FNV_OFFSET_BASIS", "HASH_DEPTH", "INIT_BUCKETS", "RESIZE_MUL", "RESIZE_SHIFT",
-             "EQUAL_DEPTH", "EQUAL_BOUND", "EQUIV_BOUND", "FIXNUM_BITS", "FIXNUM_TAG", "MAX_FIXNUM"]
+             "EQUAL_DEPTH", "EQUAL_BOUND", "EQUIV_BOUND", "FIXNUM_BITS", "FIXNUM_TAG", "MAX_FIXNUM", "REGROW_RELINKS"]
     lines = ["(** GENERATED by gen/c15_consts.py from the scratch build of $VERIF_REPO — do not edit. *)",
              "From Coq Require Import ZArith.", "Local Open Scope Z_scope."]
     for n in names:
